@@ -202,10 +202,7 @@ func runC03(c *Ctx, r *Rec) {
 					bad = "a path removes the association from the list and returns without deleting its key from the index"
 				}
 			}
-			found, _ := g.exists(pathQuery{from: point{g.entry(), 0},
-				stop:     func(n ast.Node) bool { return containsNode(n, rem.node) },
-				goalNode: func(n ast.Node) bool { return containsNode(n, del.node) && !containsNode(n, rem.node) },
-				edgeOK: func(cond ast.Expr, pol bool) bool {
+			foundEdge := func(cond ast.Expr, pol bool) bool {
 					cd := ast.Unparen(cond)
 					if u, ok := cd.(*ast.UnaryExpr); ok && u.Op == token.NOT {
 						cd, pol = ast.Unparen(u.X), !pol
@@ -214,7 +211,19 @@ func runC03(c *Ctx, r *Rec) {
 						return pol // only follow the edge on which the key was found
 					}
 					return true
-				}})
+				}
+			found, _ := g.exists(pathQuery{from: point{g.entry(), 0},
+				stop:     func(n ast.Node) bool { return containsNode(n, rem.node) },
+				goalNode: func(n ast.Node) bool { return containsNode(n, del.node) && !containsNode(n, rem.node) },
+				edgeOK:   foundEdge})
+			if found {
+				if pt, ok := g.after(del.node); ok {
+					found, _ = g.exists(pathQuery{from: pt,
+						stop:     func(n ast.Node) bool { return containsNode(n, rem.node) },
+						goalExit: func(kind int, _ *cfg.Block) bool { return kind == exitReturn },
+						edgeOK:   foundEdge})
+				}
+			}
 			if found && bad == "" {
 				bad = "a path on which the key is present deletes it from the index without removing its association from the list"
 			}
